@@ -42,6 +42,7 @@ struct Case {
     std::vector<StateLtdSpec> stateLtd;
     std::vector<ConsLtdSpec> consLtd;
     double roll, convTol; int maxIters; bool bilateralCall = false, rankDeficient = false, anyD = false;
+    bool expansion = false, reversalLikely = false;   // PLUS "expansion mode" (see decode)
 };
 
 Case decode(const pbt::Tape& t) {
@@ -120,6 +121,33 @@ Case decode(const pbt::Tape& t) {
     c.verr0.assign(m, 0); c.vapp.assign(m, 0); c.hasApplied = wantApplied && !c.bilateralCall;
     for (int i = 0; i < m; ++i) { LD a = 0, b = 0; for (int j = 0; j < n; ++j) { a += (LD)c.G[i * n + j] * u[j]; b += (LD)c.G[i * n + j] * c.Minv[j] * f[j]; } c.verr0[i] = (double)a; c.vapp[i] = c.hasApplied ? (double)(0.1 * b) : 0.0; }
     for (int i = 0; i < m; ++i) if (c.D[i] > 0) c.anyD = true;
+    // ---- PLUS expansion mode (1/3 of the PLUS solve cases): a Poisson expansion phase as in doExpansionPhase -- 2..4 frictional
+    // contacts, all Known (only friction rows participate) with expansion impulses; contact 0 starts Rolling, the others Sliding
+    // with a slip speed that the sliding friction mu|piE| would reverse (3/4), so that several sliding intervals are taken;
+    // A = I + E with E a sparse coupling (normal_i <-> tangential-x_i, tangential-x_i <-> tangential-x_{i+1}), ||E||_2 <= 0.97.
+    { pbt::Reader ge(t[0]); ge.skip(70); bool want = ge.chance(1, 3);
+      if (want && c.plus && !c.bilateralCall) {
+        c.expansion = true; c.contacts.clear(); c.uncond.clear(); c.bounded.clear(); c.stateLtd.clear(); c.consLtd.clear();
+        int k = std::max(2, std::min(4, units)); m = 3 * k; c.m = m; c.rankDeficient = false; c.anyD = false; c.hasApplied = false;
+        c.roll = 1e-3; c.D.assign(m, 0); c.vapp.assign(m, 0); c.verr0.assign(m, 0);
+        std::vector<double> E(m * m, 0);
+        for (int i = 0; i < k; ++i) {
+            pbt::Reader r = 1 + i < (int)t.size() ? pbt::Reader(t[1 + i]) : pbt::Reader(); r.skip(1);
+            ContactSpec s; s.nk = 3 * i; s.fk[0] = 3 * i + 1; s.fk[1] = 3 * i + 2; s.fric = true; s.type = 1; s.sign = 1;
+            s.mu = r.logreal(0.1, 1.5); s.piE = -r.logreal(0.2, 3);
+            double ci = r.real(-0.9, 0.9), ei = r.real(-0.9, 0.9);
+            bool rev = r.chance(3, 4); double fr = r.uniform(0.2, 0.95), fb = r.uniform(1.5, 5), ang = r.angle();
+            E[(3 * i) * m + 3 * i + 1] = E[(3 * i + 1) * m + 3 * i] = ci;
+            if (i + 1 < k) E[(3 * i + 1) * m + 3 * i + 4] = E[(3 * i + 4) * m + 3 * i + 1] = ei;
+            if (i > 0) { double vm = s.mu * std::fabs(s.piE) * (rev ? fr : fb); if (vm < 5e-3) vm = 5e-3; c.verr0[3 * i + 1] = vm * std::cos(ang); c.verr0[3 * i + 2] = vm * std::sin(ang); if (rev) c.reversalLikely = true; }
+            c.contacts.push_back(s);
+        }
+        // scale E to spectral norm <= 0.97 (power iteration on E^2)
+        { std::vector<double> x(m, 1.0), y(m); double nrm = 0;
+          for (int it = 0; it < 60; ++it) { for (int a = 0; a < m; ++a) { double q = 0; for (int b = 0; b < m; ++b) q += E[a * m + b] * x[b]; y[a] = q; } nrm = 0; for (int a = 0; a < m; ++a) nrm += y[a] * y[a]; nrm = std::sqrt(nrm); if (nrm == 0) break; double xn = 0; for (int a = 0; a < m; ++a) xn += x[a] * x[a]; xn = std::sqrt(xn); for (int a = 0; a < m; ++a) x[a] = y[a] / nrm; nrm = nrm / xn * 1.0; }
+          double sc = 1; { double fro = 0; for (double e : E) fro += e * e; fro = std::sqrt(fro); double bound = std::min(fro, nrm * 1.05 + 1e-12); if (bound > 0.97) sc = 0.97 / bound; }
+          c.A.assign(m * m, 0); for (int a = 0; a < m; ++a) for (int b = 0; b < m; ++b) c.A[a * m + b] = (a == b ? 1.0 : 0.0) + sc * E[a * m + b]; }
+      } }
     return c;
 }
 
@@ -199,6 +227,7 @@ void property1(const pbt::Tape& t, pbt::Ctx& ctx) {
     if (c.plus) solver.reset(new PLUSImpulseSolver(c.roll)); else solver.reset(new PGSImpulseSolver(c.roll));
     if (!c.plus) { solver->setConvergenceTol(c.convTol); solver->setMaxIterations(c.maxIters); }
     ctx.label(c.plus ? "solver:PLUS" : "solver:PGS");
+    if (c.expansion) { ctx.label("plus:expansion"); if (c.reversalLikely) ctx.label("plus:slip-reversal-likely"); }
     if (c.rankDeficient) ctx.label("A:rank-deficient");
     if (c.anyD) ctx.label("D:positive-entries");
 
@@ -278,7 +307,7 @@ void property1(const pbt::Tape& t, pbt::Ctx& ctx) {
 
     // known findings of PLUS, both with a predicate on the INPUT; in these classes only the clauses that do not depend on the
     // convergence of PLUS's Newton iteration are judged (K, zero impulse on non-participating rows, never-pull)
-    bool weak = false;
+    bool weak = false, weakOnlySliding = false;
     if (c.plus) {
         bool negSign = false, slide0 = false;
         for (auto& s : c.contacts) if (s.type != 0 && s.fric) { if (s.type == 2 && s.sign < 0 && s.mu > 0) negSign = true; if (std::hypot(c.verr0[s.fk[0]], c.verr0[s.fk[1]]) > c.roll) slide0 = true; }
@@ -294,6 +323,7 @@ void property1(const pbt::Tape& t, pbt::Ctx& ctx) {
         // Site predicate (result): PLUS and a contact is reported Impending at return.
         bool impending = false; for (unsigned k = 0; k < uni.size(); ++k) if (c.contacts[k].type != 0 && c.contacts[k].fric && uni[k].m_frictionCond == ImpulseSolver::Impending) impending = true;
         if (impending && listed(ctx, "plus-impending-spurious-root")) { weak = true; ctx.label("excluded:plus-impending"); }
+        weakOnlySliding = weak && slide0 && !(negSign && ctx.isKnownListed("plus-jacobian-ignores-contact-sign")) && !impending;
     }
     // known finding pgs-converged-ignores-unenforced-rows: PGS declares convergence on the RMS error of the ENFORCED rows only (active
     // normals, rolling friction, engaged bounded rows); rows that were just projected (UniOff, Sliding, SlipLow/High) do not count, so
@@ -340,7 +370,27 @@ void property1(const pbt::Tape& t, pbt::Ctx& ctx) {
         }
         if (!s.fric) continue;
         nFricContacts++;
-        if (weak) { if (rt.m_frictionCond == ImpulseSolver::Sliding) nSliding++; if (rt.m_frictionCond == ImpulseSolver::Rolling) nRolling++; continue; }
+        if (weak) {
+            if (rt.m_frictionCond == ImpulseSolver::Sliding) nSliding++; if (rt.m_frictionCond == ImpulseSolver::Rolling) nRolling++;
+            // Even when other contacts slide (finding plus-initial-sliding-unconverged), a contact that starts Rolling and is reported
+            // Rolling at the end has passed PLUS's own rolling test |pi_xy| <= mu |pi_z + piE_left| in every sliding interval with the
+            // ACCEPTED (not the Newton-dependent) impulses, and the interval fractions add up: its total friction must be inside the
+            // cone of the total normal impulse pi_z + piExpand_z. Judged for contacts whose normal is Known (cone size independent of
+            // the unknowns) -- the Poisson expansion case.
+            if (weakOnlySliding && s.type == 1 && rt.m_frictionCond == ImpulseSolver::Rolling && std::hypot(c.verr0[s.fk[0]], c.verr0[s.fk[1]]) <= c.roll) {
+                LD N = std::fabs(piTot[s.nk]); LD fx = pi[s.fk[0]], fy = pi[s.fk[1]], fm = std::sqrt(fx * fx + fy * fy);
+                ctx.label("plus:rolling-cone-judged-despite-sliding");
+                // tolerance: in an intermediate interval the contact may have been Impending (|pi_xy| = mu N only to the Newton tolerance
+                // 1e-10/|slip| ~ 1e-6 relative; observed excess <= 1.2e-6): 1e-3 relative, still far below any real cone violation
+                if (calib && N > 0 && fm > s.mu * N) fprintf(stderr, "CALIB PLUS rolling-cone excess rel=%g\n", (double)(fm / (s.mu * N) - 1));
+                // known finding plus-hidden-impending-in-earlier-interval: the unchanged solver violates this clause too (up to 2.2x the
+                // cone): in an EARLIER sliding interval the contact switches Rolling->Impending, Newton lands on the spurious root d = 0
+                // (finding plus-impending-spurious-root), and the next interval re-classifies it Rolling, so nothing shows at return.
+                // Site predicate: PLUS, another contact slides at the start, this Known contact is Rolling at start and at return.
+                if (fm > s.mu * N * (1 + 1e-3L) + tolPi && listed(ctx, "plus-hidden-impending-in-earlier-interval")) { ctx.label("excluded:plus-hidden-impending"); continue; }
+                if (fm > s.mu * N * (1 + 1e-3L) + tolPi) { ctx.fail("PLUS: contact " + std::to_string(k) + " (expanding, Rolling from start to end) friction impulse " + pbt::str((double)fm) + " outside the cone mu*|pi_z+piExpand_z| = " + pbt::str((double)(s.mu * N))); return; }
+            }
+            continue; }
         LD N = std::fabs(piTot[s.nk]); LD fx = pi[s.fk[0]], fy = pi[s.fk[1]], fm = std::sqrt(fx * fx + fy * fy);
         bool off = s.type == 2 && rt.m_contactCond == ImpulseSolver::UniOff;
         if (fm > s.mu * N * (1 + (c.plus ? 1e-6L : 1e-9L)) + tolPi + (c.plus ? 0 : 1e-14L * (piScale + 1))) { ctx.fail(std::string(S) + ": contact " + std::to_string(k) + " friction impulse " + pbt::str((double)fm) + " outside the cone mu*N = " + pbt::str((double)(s.mu * N)) + " (" + ImpulseSolver::getFricCondName(rt.m_frictionCond) + ")"); return; }
@@ -406,11 +456,11 @@ void property1(const pbt::Tape& t, pbt::Ctx& ctx) {
 }
 
 pbt::Config config() {
-    pbt::Config c; c.prop = "C44"; c.K = 72; c.minUnits = 1;
+    pbt::Config c; c.prop = "C44"; c.K = 74; c.minUnits = 1;
     c.quick = {2000, 20000, 12, 25}; c.thorough = {20000, 60000, 14, 240};
     c.rule = "rapidcheck tape -> impulse problem: A = G Minv G' (n = 2..14 dofs, m <= 30 rows, rank deficient on purpose in 1/4 of the cases and whenever m > n), D >= 0, rows partitioned into unconditional groups, unilateral contacts (frictionless / 2 friction rows; Participating / Known with expansion impulse / Observing; both sign conventions; mu in [0,2]) and for PGS bounded, state-limited and constraint-limited friction rows; verrStart = G u, verrApplied = 0.1 G Minv f or absent; PLUS and PGS; 1/8 of the cases call solveBilateral. Non-trivial: >= 2 frictional contacts with at least one ending Sliding and one Rolling or Off; distinct by tape hash.";
     c.assumptions = {"PGS returning false (not converged) is a rejection", "PLUS's return value is ignored (never true); its outputs are judged", "uniSpeed rows are not generated (neither solver implements them; the only caller never creates them); PLUS gets no bounded/state-/constraint-limited rows (TODO in its source)", "while plus-ignores-D is listed PLUS cases are generated with D = 0"};
-    c.requiredLabels = {"solver:PLUS", "solver:PGS", "friction:some-sliding", "friction:some-rolling", "contact:some-off", "contact:known-expanding", "contact:observing", "only-unconditional", "call:solveBilateral", "A:rank-deficient"};
+    c.requiredLabels = {"plus:expansion", "plus:slip-reversal-likely", "plus:rolling-cone-judged-despite-sliding", "solver:PLUS", "solver:PGS", "friction:some-sliding", "friction:some-rolling", "contact:some-off", "contact:known-expanding", "contact:observing", "only-unconditional", "call:solveBilateral", "A:rank-deficient"};
     c.directed.push_back({"plus-ignores-D-2x2", "plus-ignores-D", [](pbt::Ctx& ctx) {
         // two unconditional rows, A = I, D = (1,0), verr = (1,1): [A+D] pi = verr  =>  pi = (0.5, 1)
         Matrix A(2, 2); A = 0; A(0, 0) = A(1, 1) = 1; Vector D(2); D[0] = 1; D[1] = 0;
@@ -470,6 +520,21 @@ pbt::Config config() {
         double d = (res[0] - res[1]).norm();
         ctx.desc << "PLUS, mirrored single-contact problem: pi(sign +1)=" << res[0] << " mirrored pi(sign -1)=" << res[1] << " difference " << d << "\n";
         ctx.check(d <= 1e-8, "sign convention -1 gives a different (less converged) impulse than the mirrored +1 problem: difference " + pbt::str(d));
+    }});
+    c.directed.push_back({"plus-expansion-rolling-contact-outside-cone", "plus-hidden-impending-in-earlier-interval", [](pbt::Ctx& ctx) {
+        // expansion phase, two Known frictional contacts (mu = 1, piE = -1): contact 1 slides and is stopped, contact 0 is Rolling at the
+        // start and at return, all end velocities are zero, yet |pi_xy| of contact 0 exceeds mu*|piE|
+        const int m = 6; Matrix A(m, m); A = 0; for (int i = 0; i < m; ++i) A(i, i) = 1;
+        A(0, 1) = A(1, 0) = 0.43011519973894008; A(1, 4) = A(4, 1) = -0.72966512427402663; A(3, 4) = A(4, 3) = -0.41672305494062384; Vector D(m, 0.0);
+        Array_<ImpulseSolver::UncondRT> unc; Array_<ImpulseSolver::UniContactRT> uni(2); Array_<ImpulseSolver::UniSpeedRT> us; Array_<ImpulseSolver::BoundedRT> bd; Array_<ImpulseSolver::ConstraintLtdFrictionRT> cl; Array_<ImpulseSolver::StateLtdFrictionRT> sl;
+        Array_<MultiplierIndex> part, expanding; Vector piE(m, 0.0), verr(m, 0.0), vapp, pi(m, NaN);
+        for (int k = 0; k < 2; ++k) { uni[k].m_Nk = MultiplierIndex(3 * k); uni[k].m_Fk.push_back(MultiplierIndex(3 * k + 1)); uni[k].m_Fk.push_back(MultiplierIndex(3 * k + 2)); uni[k].m_sign = 1; uni[k].m_type = ImpulseSolver::Known; uni[k].m_effCOR = 0; uni[k].m_effMu = 1;
+            part.push_back(MultiplierIndex(3 * k + 1)); part.push_back(MultiplierIndex(3 * k + 2)); expanding.push_back(MultiplierIndex(3 * k)); piE[3 * k] = -1; }
+        verr[4] = 0.46872116600935587; verr[5] = -0.52099603659215554;
+        PLUSImpulseSolver plus(1e-3); plus.solve(0, part, A, D, expanding, piE, verr, vapp, pi, unc, uni, us, bd, cl, sl);
+        double f = std::hypot((double)pi[1], (double)pi[2]);
+        ctx.desc << "PLUS expansion phase: contact 0 |pi_xy|=" << f << " mu*|piE|=1 reported " << ImpulseSolver::getFricCondName(uni[0].m_frictionCond) << "\n";
+        ctx.check(f <= 1 + 1e-6, "contact 0 is reported " + std::string(ImpulseSolver::getFricCondName(uni[0].m_frictionCond)) + " but its friction impulse " + pbt::str(f) + " exceeds mu*|piExpand| = 1");
     }});
     c.directed.push_back({"pgs-one-sweep-convergence", "pgs-converged-ignores-unenforced-rows", [](pbt::Ctx& ctx) {
         Matrix A(2, 2); A(0, 0) = 1; A(0, 1) = A(1, 0) = -1; A(1, 1) = 2; Vector D(2, 0.0);
